@@ -12,7 +12,7 @@ const (
 	c07SortKeysOfSort     = "if len(op.Args) != 1 { return nil } ; key, ok := sortKeyOfExpr(op.Args[0].Key, op.Args[0].Order) ; if !ok { return nil } ; if op.Reverse { key.Order = !key.Order } ; return order.SortKeys{key}"
 	c07SortKeyOfExpr      = "key := fieldOf(e) ; if key == nil { return order.SortKey{}, false } ; return order.NewSortKey(o, key), true"
 	c07AnalyzeCuts        = "if sortKeys.IsNil() { return nil } ; key := sortKeys[0].Key ; scoreboard := make(map[string]field.Path) ; scoreboard[fieldKey(key)] = key ; for _, a := range assignments { lhs := fieldOf(a.LHS) rhs := fieldOf(a.RHS) if lhs == nil { return nil } lhsKey := fieldKey(lhs) if rhs == nil { dependencies, ok := FieldsOf(a.RHS) if !ok { return nil } for _, d := range dependencies { key := fieldKey(d) if _, ok := scoreboard[key]; ok { return nil } } delete(scoreboard, lhsKey) continue } rhsKey := fieldKey(rhs) if _, ok := scoreboard[rhsKey]; ok { scoreboard[lhsKey] = lhs continue } delete(scoreboard, lhsKey) } ; if len(scoreboard) != 1 { return nil } ; for _, f := range scoreboard { return order.SortKeys{order.NewSortKey(sortKeys[0].Order, f)} } ; panic(\"unreachable\")"
-	c07IsKeyOfSummarize   = "if in.IsNil() { return false } ; key := in[0].Key ; for _, outputKeyExpr := range summarize.Keys { groupByKey := fieldOf(outputKeyExpr.LHS) if groupByKey.Equal(key) { rhsExpr := outputKeyExpr.RHS rhs := fieldOf(rhsExpr) if rhs.Equal(key) || orderPreservingCall(rhsExpr, groupByKey) { return true } } } ; return false"
+	c07IsKeyOfSummarize   = "if in.IsNil() { return false } ; key := in[0].Key ; for _, outputKeyExpr := range summarize.Keys[:min(1, len(summarize.Keys))] { groupByKey := fieldOf(outputKeyExpr.LHS) if groupByKey.Equal(key) { rhsExpr := outputKeyExpr.RHS rhs := fieldOf(rhsExpr) if rhs.Equal(key) || orderPreservingCall(rhsExpr, groupByKey) { return true } } } ; return false"
 	c07FieldOf            = "if this, ok := e.(*dag.This); ok { return this.Path } ; return nil"
 	c07ParallelPaths      = "if s, ok := op.(*dag.Scatter); ok { return s.Paths, true } ; if f, ok := op.(*dag.Fork); ok { return f.Paths, true } ; return nil, false"
 	c07MatchFilter        = "if len(in) == 0 { return nil, in } ; filter, ok := in[0].(*dag.Filter) ; if !ok { return nil, in } ; return filter.Expr, in[1:]"
@@ -20,10 +20,10 @@ const (
 )
 
 var c07PropagateShapes = map[string]string{
-	"if parent.IsNil() { return []order.SortKeys{nil}, nil } ; sortKey := parent.Primary() ; for _, k := range op.Keys { if groupByKey := fieldOf(k.LHS); groupByKey.Equal(sortKey.Key) { rhsExpr := k.RHS rhs := fieldOf(rhsExpr) if rhs.Equal(sortKey.Key) || orderPreservingCall(rhsExpr, groupByKey) { op.InputSortDir = orderAsDirection(sortKey.Order) return []order.SortKeys{parent}, nil } } } ; return []order.SortKeys{nil}, nil": "summarize",
-	"var keys []order.SortKeys ; for _, seq := range op.Paths { out, err := o.propagateSortKey(seq, []order.SortKeys{parent}) if err != nil { return nil, err } keys = append(keys, out...) } ; return keys, nil":                                                                                                                                                                                                                            "paths",
-	"var keys []order.SortKeys ; for _, seq := range []dag.Seq{op.Main, op.Mirror} { out, err := o.propagateSortKey(seq, []order.SortKeys{parent}) if err != nil { return nil, err } keys = append(keys, out...) } ; return keys, nil":                                                                                                                                                                                                       "mirror",
-	"var sortKeys order.SortKeys ; if this, ok := op.Expr.(*dag.This); ok { sortKeys = append(sortKeys, order.NewSortKey(op.Order, this.Path)) } ; if !sortKeys.Equal(parent) { sortKeys = nil } ; return []order.SortKeys{sortKeys}, nil":                                                                                                                                                                                                   "merge",
+	"if parent.IsNil() { return []order.SortKeys{nil}, nil } ; sortKey := parent.Primary() ; for _, k := range op.Keys[:min(1, len(op.Keys))] { if groupByKey := fieldOf(k.LHS); groupByKey.Equal(sortKey.Key) { rhsExpr := k.RHS rhs := fieldOf(rhsExpr) if rhs.Equal(sortKey.Key) || orderPreservingCall(rhsExpr, groupByKey) { op.InputSortDir = orderAsDirection(sortKey.Order) return []order.SortKeys{parent}, nil } } } ; return []order.SortKeys{nil}, nil": "summarize",
+	"var keys []order.SortKeys ; for _, seq := range op.Paths { out, err := o.propagateSortKey(seq, []order.SortKeys{parent}) if err != nil { return nil, err } keys = append(keys, out...) } ; return keys, nil":                                                                                                                                                                                                                                                   "paths",
+	"var keys []order.SortKeys ; for _, seq := range []dag.Seq{op.Main, op.Mirror} { out, err := o.propagateSortKey(seq, []order.SortKeys{parent}) if err != nil { return nil, err } keys = append(keys, out...) } ; return keys, nil":                                                                                                                                                                                                                              "mirror",
+	"var sortKeys order.SortKeys ; if this, ok := op.Expr.(*dag.This); ok { sortKeys = append(sortKeys, order.NewSortKey(op.Order, this.Path)) } ; if !sortKeys.Equal(parent) { sortKeys = nil } ; return []order.SortKeys{sortKeys}, nil":                                                                                                                                                                                                                          "merge",
 	"out, err := o.sortKeysOfSource(op) ; return []order.SortKeys{out}, err":        "source",
 	"return o.propagateSortKey(op.Body, parents)":                                   "scope",
 	"out, err := o.analyzeSortKeys(op, parent) ; return []order.SortKeys{out}, err": "analyze",
